@@ -134,6 +134,15 @@ def more_tables():
     f.insert_operator('->', True, '~>', OT.BINARY_RIGHT_ASSOCIATIVE, True)
     f.insert_operator('.', True, '::', OT.BINARY_LEFT_ASSOCIATIVE, False)
     yield 'loosest-right+tightest-join', f, ['~>', '->', '::']
+    # word operators that are identifiers but not purely alphabetic, and a
+    # non-ASCII word
+    f = yaql.YaqlFactory()
+    f.insert_operator('in', True, 'not_in', OT.BINARY_LEFT_ASSOCIATIVE,
+                      False)
+    f.insert_operator('or', True, 'xor2', OT.BINARY_LEFT_ASSOCIATIVE, True)
+    f.insert_operator('and', True, 'und\u00e9', OT.BINARY_RIGHT_ASSOCIATIVE,
+                      True)
+    yield 'identifier-shaped-words', f, ['not_in', 'xor2', 'und\u00e9']
 
 
 def main():
